@@ -577,6 +577,12 @@ class Compiler:
                 raise CompilationError('subquery has too many columns', node.right)
             right = EvalConstantSubquery1D(right)
 
+        # The right operand must be a collection, or be untyped.
+        if right.dtype not in {object, types.NoneType} and not issubclass(right.dtype, collections.abc.Container):
+            raise CompilationError(
+                f'operator "{type(node).__name__.lower()}('
+                f'{types.name(left.dtype)}, {types.name(right.dtype)})" not supported', node)
+
         op = OPERATORS[type(node)][0]
         return op(left, right)
 
